@@ -41,6 +41,7 @@ inductive Tool where
   | exit3      -- exits with code 3
   | sigkill    -- writes complete, valid output, then dies by a signal (return code -9)
   | hang
+  | hangIgnoreTerm   -- never exits and ignores SIGTERM (only SIGKILL, i.e. `Popen.kill()`, ends it)
   | missing | isdir | nulbyte   -- cannot be launched: FileNotFoundError / PermissionError / ValueError (not an OSError)
   deriving DecidableEq, Repr
 
@@ -218,8 +219,11 @@ def errEval : Err := .other "EvalFailure"
 def initFiles : Wrapper → Nat
   | .base => 1 | .localapp => 0 | .clustalo => 7 | .muscle3 => 5 | .muscle5 => 3 | .mafft => 3
 
+/-- The program never exits on its own. -/
+def hangs (t : Tool) : Bool := t = .hang ∨ t = .hangIgnoreTerm
+
 /-- The external program has exited as far as `poll()` / the stub's `is_finished()` can tell. -/
-def exited (s : St) : Bool := s.released && s.tool != .hang
+def exited (s : St) : Bool := s.released && !hangs s.tool
 
 /-- What the exiting program leaves behind: the child is gone; real MAFFT (and the fake one) writes `<input>.tree`
 next to its input unless it fails with an exit code. -/
@@ -247,6 +251,7 @@ def cleanUp (s : St) : St :=
   | _ =>
     -- LocalApp.clean_up: `if self.get_app_state() == CANCELLED and self._process is not None: kill()`
     let (s, st) := getAppState s
+    -- `Popen.kill()` = SIGKILL: ends the child whatever it does with other signals
     let s := if st = .cancelled ∧ s.child = .alive then { s with child := .dead } else s
     -- MSAApp / wrapper clean_up: cleanup_tempfile(...) for every file; MafftApp additionally removes the tree file
     { s with files := 0 }
@@ -311,6 +316,11 @@ def evaluate (s : St) : Except Err (Option (List Nat × List Nat)) :=
       -- wrapper part: guide tree file(s)
       if readsTree w s.treeSet ∧ s.tool = .garbageTree then .error errEval else .ok (some r)
 
+/-- The `timeout` argument of `join`: `None`, the boundary value `0` / `0.0` ("do not wait"), or a positive number. -/
+inductive Timeout where
+  | none | zero | pos
+  deriving DecidableEq, Repr
+
 /-- `cancel()` body (after its guard). -/
 def cancelBody (s : St) : St := cleanUp { s with state := .cancelled }
 
@@ -335,17 +345,24 @@ def joinLocal (s : St) (timeout : Bool) : St × Res :=
   else if timeout then
     -- except TimeoutExpired: self.cancel(); raise TimeoutError
     (cancelBody s, .err errTimeout)
-  else if s.tool = .hang then (s, .diverges)
+  else if hangs s.tool then (s, .diverges)
   else
     -- the program finishes while we wait
     joinTail { waitExit { s with released := true } with state := .finished }
+
+/-- `LocalApp.join` for the three kinds of `timeout`: `communicate(timeout=0)` on pipes that were not read yet raises
+TimeoutExpired even if the child has already exited (in FINISHED the pipes were drained by `is_finished()`, then it
+returns at once); otherwise 0 behaves like any other timeout. -/
+def joinLocalT (s : St) (t : Timeout) : St × Res :=
+  if t = .zero ∧ s.state = .running then (cancelBody s, .err errTimeout)
+  else joinLocal s (t ≠ .none)
 
 /-- `Application.join(timeout)` body: `while self.get_app_state() != FINISHED: (timeout → cancel, raise) | sleep`. -/
 def joinBase (s : St) (timeout : Bool) : St × Res :=
   let (s1, st) := getAppState s
   if st = .finished then joinTail s1
   else if timeout then (cancelBody s1, .err errTimeout)
-  else if s.tool = .hang then (s, .diverges)
+  else if hangs s.tool then (s, .diverges)
   else joinTail { s1 with released := true, state := .finished }
 
 /-- `start()` body: `try: self.run() except: CANCELLED; (try: clean_up() except Exception: pass); raise` then RUNNING.
@@ -367,7 +384,7 @@ def startBody (s : St) : St × Res :=
 
 inductive Call where
   | start
-  | join (timeout : Bool)
+  | join (timeout : Timeout)
   | cancel
   | getState
   | tick
@@ -404,7 +421,7 @@ def step (s : St) (c : Call) : St × Res :=
   match c with
   | .tick =>
     let s := { s with released := true }
-    (if s.tool ≠ .hang then waitExit s else s, .ok "")
+    (if ¬ hangs s.tool then waitExit s else s, .ok "")
   | .getState =>
     let (s, st) := getAppState s
     (s, .ok st.name)
@@ -415,7 +432,10 @@ def step (s : St) (c : Call) : St × Res :=
   | .join t =>
     match guardOf s.w "join" with
     | some g =>
-      if passes g s.state then (if s.w = .base then joinBase s t else joinLocal s t) else (s, .err .stateError)
+      if passes g s.state then
+        if s.w = .base then joinBase s (t ≠ .none)    -- `timeout is not None and …`: 0 counts as a timeout
+        else joinLocalT s t
+      else (s, .err .stateError)
     | none => (s, .noMethod)
   | .cancel =>
     match guardOf s.w "cancel" with
